@@ -237,7 +237,7 @@ pub fn chk_apply<C: Variant>(have: i8, n: usize) {
     }
     obl!(frame, "nothing_else_modified");
     #[cfg(kani)]
-    kani::cover!(!fits || lazy + need == 0, "a state in which this request passes the end of the keystream exists (when it needs blocks)");
+    kani::cover!(!fits || need == 0, "a state in which this request passes the end of the keystream exists (when it needs blocks)");
     #[cfg(kani)]
     kani::cover!(fits, "a state in which this request fits exists");
     obl!(c.buf().state.get_stream_param(1) == p1_before, "stream_id_untouched");
